@@ -313,6 +313,8 @@ class SampleSegregatingPermutationPlateGenerator(RetrospectivePlateGenerator):
                 plates = np.array_split(rng.permutation(sample_indices), n_plates)
                 for plate in plates:
                     plate_indices.append(plate)
+            else:
+                plate_indices.append(sample_indices)
         logger.info(
             "SampleSegregatingPermutationPlateGenerator created {} plates".format(
                 len(plate_indices)
